@@ -28,8 +28,8 @@ M = [
  ("C05", "register-space-off-by-one", "hlsl/src/ast_generate.rs", "space: if slot.set != 0 { Some(slot.set) } else { None },", "space: if slot.set != 0 { Some(slot.set + 1) } else { None },", ["C05.slot/hlsl/register-space"]),
  ("C05", "msl-entry-name", "src/compile.rs", 'ShaderStage::Mesh => "MeshShaderEntry",', 'ShaderStage::Mesh => "MeshEntry",', ["C05.entry/msl/Mesh"]),
  ("C05", "msl-id-off-by-one", "msl/src/generator/pipeline.rs", "ast::Literal::IntUntyped(index as u64),", "ast::Literal::IntUntyped(index as u64 + 1),", ["C05.slot/msl/id-attribute"]),
- ("C06", "post-update-slot", "ir/src/ir_module.rs", "                                    let slot = *o.get();\n                                    *o.get_mut() += slot_count;\n                                    slot", "                                    *o.get_mut() += slot_count;\n                                    *o.get()", ["C06.bump/used_slots/slot/returns-pre-update"]),
- ("C06", "metal-two-slot-kind-missing", "ir/src/ir_module.rs", "                            | ObjectType::RWBufferAddress\n", "", ["C06.bump/slice-cost"]),
+ ("C06", "post-update-slot", "ir/src/ir_module.rs", "                                    let slot = *o.get();\n                                    *o.get_mut() += slot_count;\n                                    slot", "                                    *o.get_mut() += slot_count;\n                                    *o.get()", ["C06.alloc/plain"]),
+ ("C06", "metal-two-slot-kind-missing", "ir/src/ir_module.rs", "                            | ObjectType::RWBufferAddress\n", "", ["C06.alloc/addresses"]),
  ("C06", "msl-static-samplers-have-slots", "src/compile.rs", "metal_slot_layout: true,\n            static_samplers_have_slots: false,", "metal_slot_layout: true,\n            static_samplers_have_slots: true,", ["C06.params/Msl/static_samplers_have_slots"]),
  ("C07", "required-globals-unsorted", "msl/src/generator.rs", "        required_globals.sort();\n", "", ["C07.hash/analyse_globals/for-HashSet"]),
  ("C07", "name-vec-unsorted", "ir/src/name_generator.rs", "name_to_symbol_vec.sort_by(|l, r| String::cmp(l.0, r.0));", "", ["C07.hash/build/from_iter", "C07.sort-key/build/name_to_symbol_vec"]),
